@@ -87,6 +87,9 @@ func (d *Describer) Lin(v ssa.Value, reach *Reach) LinForm {
 
 func (d *Describer) lin(v ssa.Value, reach *Reach, depth int) LinForm {
 	leaf := func() LinForm {
+		if ph, ok := v.(*ssa.Phi); ok && d.PhiByName {
+			return linLeaf(fmt.Sprintf("φ%s", ph.Name()))
+		}
 		if reach != nil {
 			return linLeaf(d.DUnder(v, reach))
 		}
